@@ -275,3 +275,181 @@ Theorem C08_export_vertex_names_distinct :
          List.NoDup (List.map vertex_name (all_states o)).
 Proof. exact @export_vertex_names_distinct. Qed.
 Print Assumptions C08_export_vertex_names_distinct.
+
+From V Require Import Base Perm Tensor Graph GraphProofs GraphImpl Bfs BfsStep BfsProofs BfsEdges Export ExportProofs ExportSchreier ExportMatrices ExportMatricesProofs.
+
+(* the dense adjacency matrix has a 1 at (i, j) exactly when the pair is in the edge list *)
+Theorem C08_dense_entry_one :
+  forall (n : nat) (el : list (nat * nat)) (i j : nat),
+         i < n ->
+         j < n ->
+         List.nth j (List.nth i (adjacency_dense n el) nil) BinNums.Z0 = BinNums.Zpos BinNums.xH <->
+         List.In (i, j) el.
+Proof. exact @dense_entry_one. Qed.
+Print Assumptions C08_dense_entry_one.
+
+(* and only 0/1 entries *)
+Theorem C08_dense_entries_01 :
+  forall (n : nat) (el : list (nat * nat)) (r : list BinNums.Z) (x : BinNums.Z),
+         List.In r (adjacency_dense n el) ->
+         List.In x r -> x = BinNums.Z0 \/ x = BinNums.Zpos BinNums.xH.
+Proof. exact @dense_entries_01. Qed.
+Print Assumptions C08_dense_entries_01.
+
+(* the sparse (COO) matrix has exactly the listed pairs, each with value 1 *)
+Theorem C08_sparse_support :
+  forall (el : list (nat * nat)) (i j : nat) (v : BinNums.Z),
+         List.In (i, j, v) (adjacency_sparse el) <-> v = BinNums.Zpos BinNums.xH /\ List.In (i, j) el.
+Proof. exact @sparse_support. Qed.
+Print Assumptions C08_sparse_support.
+
+(* dense = min(1, sparse with duplicates summed) *)
+Theorem C08_dense_vs_sparse :
+  forall (n : nat) (el : list (nat * nat)) (i j : nat),
+         i < n ->
+         j < n ->
+         entry (adjacency_dense n el) i j =
+         BinInt.Z.min (BinNums.Zpos BinNums.xH) (coo_entry (adjacency_sparse el) i j).
+Proof. exact @dense_vs_sparse. Qed.
+Print Assumptions C08_dense_vs_sparse.
+
+(* the matrix is symmetric iff the edge set is *)
+Theorem C08_dense_transpose_iff :
+  forall (n : nat) (el : list (nat * nat)),
+         mtranspose n (adjacency_dense n el) = adjacency_dense n el <->
+         (forall i j : nat, i < n -> j < n -> List.In (i, j) el -> List.In (j, i) el).
+Proof. exact @dense_transpose_iff. Qed.
+Print Assumptions C08_dense_transpose_iff.
+
+(* COMPOSITION: on a completed run both matrices have an entry at (i, j) exactly when some generator maps state i to state j; symmetric when the generators are inverse-closed *)
+Theorem C08_export_adjacency_is_schreier :
+  forall (G : impl) (cfg : bfs_cfg) (U : state -> Prop),
+         closed state (acts G) U ->
+         (forall a b : state, U a -> U b -> hashf G a = hashf G b -> a = b) ->
+         (is_identity G = true -> forall a : state, U a -> unword G (hashf G a) = a) ->
+         (inv_closed G = true -> symmetric_on state (acts G) U) ->
+         BinInt.Z.le (BinNums.Zpos BinNums.xH) (batch_size cfg) ->
+         forall starts : list state,
+         (forall s : state, List.In s starts -> U s) ->
+         starts <> nil ->
+         ret_edges cfg = true ->
+         ret_hashes cfg = true ->
+         forall (o : bfs_out) (es : list (BinNums.Z * BinNums.Z)),
+         bfs G cfg starts = Ok o ->
+         completed o = true ->
+         edges o = Some es ->
+         length (layers o) = length (sizes o) ->
+         forall (m : list (BinNums.Z * nat)) (el : list (nat * nat)),
+         hashes_to_indices (layer_hashes o) (sizes o) = Ok m ->
+         edges_list m es = Ok el ->
+         let A := adjacency_dense (List.fold_right PeanoNat.Nat.add 0 (sizes o)) el in
+         adjacency_matrix (List.fold_right PeanoNat.Nat.add 0 (sizes o)) el = Ok A /\
+         length A = List.fold_right PeanoNat.Nat.add 0 (sizes o) /\
+         (forall r : list BinNums.Z,
+          List.In r A -> length r = List.fold_right PeanoNat.Nat.add 0 (sizes o)) /\
+         (forall (r : list BinNums.Z) (x : BinNums.Z),
+          List.In r A -> List.In x r -> x = BinNums.Z0 \/ x = BinNums.Zpos BinNums.xH) /\
+         (forall i j : nat,
+          i < List.fold_right PeanoNat.Nat.add 0 (sizes o) ->
+          j < List.fold_right PeanoNat.Nat.add 0 (sizes o) ->
+          List.nth j (List.nth i A nil) BinNums.Z0 = BinNums.Zpos BinNums.xH <-> gen_edge G o i j) /\
+         (forall i j : nat,
+          i < List.fold_right PeanoNat.Nat.add 0 (sizes o) ->
+          j < List.fold_right PeanoNat.Nat.add 0 (sizes o) ->
+          List.nth j (List.nth i A nil) BinNums.Z0 = BinNums.Z0 <-> ~ gen_edge G o i j) /\
+         length (adjacency_sparse el) = length es /\
+         (forall i j : nat,
+          (exists v : BinNums.Z, List.In (i, j, v) (adjacency_sparse el)) <->
+          i < List.fold_right PeanoNat.Nat.add 0 (sizes o) /\
+          j < List.fold_right PeanoNat.Nat.add 0 (sizes o) /\ gen_edge G o i j) /\
+         (forall (i j : nat) (v : BinNums.Z),
+          List.In (i, j, v) (adjacency_sparse el) -> v = BinNums.Zpos BinNums.xH) /\
+         (inv_closed G = true -> mtranspose (List.fold_right PeanoNat.Nat.add 0 (sizes o)) A = A).
+Proof. exact @export_adjacency_is_schreier. Qed.
+Print Assumptions C08_export_adjacency_is_schreier.
+
+(* named_undirected_edges lists the name pair of i, j iff an edge joins them in either direction *)
+Theorem C08_export_named_undirected :
+  forall (G : impl) (cfg : bfs_cfg) (U : state -> Prop),
+         closed state (acts G) U ->
+         (forall a b : state, U a -> U b -> hashf G a = hashf G b -> a = b) ->
+         (is_identity G = true -> forall a : state, U a -> unword G (hashf G a) = a) ->
+         (inv_closed G = true -> symmetric_on state (acts G) U) ->
+         BinInt.Z.le (BinNums.Zpos BinNums.xH) (batch_size cfg) ->
+         forall starts : list state,
+         (forall s : state, List.In s starts -> U s) ->
+         starts <> nil ->
+         ret_edges cfg = true ->
+         ret_hashes cfg = true ->
+         forall (o : bfs_out) (es : list (BinNums.Z * BinNums.Z)),
+         bfs G cfg starts = Ok o ->
+         completed o = true ->
+         edges o = Some es ->
+         length (layers o) = length (sizes o) ->
+         forall (m : list (BinNums.Z * nat)) (el : list (nat * nat)),
+         hashes_to_indices (layer_hashes o) (sizes o) = Ok m ->
+         edges_list m es = Ok el ->
+         forall i j : nat,
+         List.NoDup (List.map vertex_name (all_states o)) ->
+         i < List.fold_right PeanoNat.Nat.add 0 (sizes o) ->
+         j < List.fold_right PeanoNat.Nat.add 0 (sizes o) ->
+         List.In
+           (sorted_pair (vertex_name (List.nth i (all_states o) nil))
+              (vertex_name (List.nth j (all_states o) nil)))
+           (named_undirected (List.map vertex_name (all_states o)) el) <->
+         gen_edge G o i j \/ gen_edge G o j i.
+Proof. exact @export_named_undirected. Qed.
+Print Assumptions C08_export_named_undirected.
+
+(* the label networkx stores on (name i, name j) is the name of the first generator mapping state i to state j *)
+Theorem C08_export_nx_directed_labels :
+  forall (G : impl) (cfg : bfs_cfg) (U : state -> Prop),
+         closed state (acts G) U ->
+         (forall a b : state, U a -> U b -> hashf G a = hashf G b -> a = b) ->
+         (is_identity G = true -> forall a : state, U a -> unword G (hashf G a) = a) ->
+         (inv_closed G = true -> symmetric_on state (acts G) U) ->
+         BinInt.Z.le (BinNums.Zpos BinNums.xH) (batch_size cfg) ->
+         forall starts : list state,
+         (forall s : state, List.In s starts -> U s) ->
+         starts <> nil ->
+         ret_edges cfg = true ->
+         ret_hashes cfg = true ->
+         forall (o : bfs_out) (es : list (BinNums.Z * BinNums.Z)),
+         bfs G cfg starts = Ok o ->
+         completed o = true ->
+         edges o = Some es ->
+         length (layers o) = length (sizes o) ->
+         forall (m : list (BinNums.Z * nat)) (el : list (nat * nat)),
+         hashes_to_indices (layer_hashes o) (sizes o) = Ok m ->
+         edges_list m es = Ok el ->
+         forall (perms : list (list nat)) (gnames : list String.string),
+         acts G = List.map (fun p : list nat => apply_perm BinNums.Z0 p) perms ->
+         length gnames = length perms ->
+         forall i j : nat,
+         List.NoDup (List.map vertex_name (all_states o)) ->
+         List.In (i, j) el ->
+         exists k : nat,
+           dict_get
+             (vertex_name (List.nth i (all_states o) nil),
+              vertex_name (List.nth j (all_states o) nil))
+             (nx_edges_directed (List.map vertex_name (all_states o))
+                (List.map (fun '(i0, j0) => edge_label o perms gnames i0 j0) el) el) =
+           Some (List.nth k gnames String.EmptyString) /\
+           edge_name perms gnames (List.nth i (all_states o) nil) (List.nth j (all_states o) nil) =
+           Ok (List.nth k gnames String.EmptyString) /\
+           k < length perms /\
+           apply_perm BinNums.Z0 (List.nth k perms nil) (List.nth i (all_states o) nil) =
+           List.nth j (all_states o) nil /\
+           (forall k' : nat,
+            k' < k ->
+            apply_perm BinNums.Z0 (List.nth k' perms nil) (List.nth i (all_states o) nil) <>
+            List.nth j (all_states o) nil).
+Proof. exact @export_nx_directed_labels. Qed.
+Print Assumptions C08_export_nx_directed_labels.
+
+(* what the differential check of the matrices means *)
+Theorem C08_check_dense_iff :
+  forall (n : nat) (el : list (nat * nat)) (observed : list (list BinNums.Z)),
+         check_dense n el observed = true <-> adjacency_matrix n el = Ok observed.
+Proof. exact @check_dense_iff. Qed.
+Print Assumptions C08_check_dense_iff.
